@@ -29,6 +29,7 @@
  */
 #define _GNU_SOURCE
 #include <inttypes.h>
+#include <math.h>
 #include <pthread.h>
 #include <stdint.h>
 #include <stdio.h>
@@ -56,7 +57,9 @@
 #define K_SAMESEED 0x400u /* all trials of the experiment get the SAME seed parameter (common random numbers) */
 #define K_MIX    0x800u
 #define K_SEED3  0x1000u  /* seeds repeat with period 3 over the trial index */
-#define K_TERM   0x2000u  /* odd trials call cmb_random_terminate() before they return */   /* vary the mask per trial (derived from the trial's seed) */
+#define K_TERM   0x2000u
+#define K_ULP    0x4000u  /* memoised samplers (gamma family, geometric) with parameters that are equal to, 1 ulp from and far
+                           * from those of the neighbouring trials; drawn first and last in the trial */  /* odd trials call cmb_random_terminate() before they return */   /* vary the mask per trial (derived from the trial's seed) */
 
 #define USERFLAG1 UINT32_C(0x00000001)
 #define USERFLAG2 UINT32_C(0x00000002)
@@ -312,6 +315,39 @@ static void memo_block(struct world *w, unsigned rounds)
     }
 }
 
+/* Parameters of the memoised samplers as a function of the trial index: six consecutive trials share a base value and use
+ * base, next double up, base, next double down, next double down again (equal), and a value far away - so neighbouring trials
+ * have keys that are 1 ulp apart, equal, and far apart.  Bases include shapes in [1,2) (adjacent doubles are DBL_EPSILON
+ * apart), shapes below 1 (sampled as shape + 1), the boundary 1.0 / 2.0 and one above 2. */
+static double ulp_variant(double base, uint64_t idx, double far)
+{
+    switch (idx % 6u) {
+    case 1: return nextafter(base, INFINITY);
+    case 3: case 4: return nextafter(base, -INFINITY);
+    case 5: return far;
+    default: return base;
+    }
+}
+
+static void ulp_block(struct world *w, const struct trial_hdr *t)
+{
+    static const double shape_bases[8] = { 1.21, 1.5, 1.9999999999999998, 0.21, 0.75, 1.0, 3.0, 1.1 * 1.1 };
+    static const double p_bases[4] = { 0.3, 0.5, 0.25, 0.7 };
+    const uint64_t i = t->idx_param;
+    const double s = ulp_variant(shape_bases[(i / 6u) % 8u], i, 3.0 * shape_bases[(i / 6u) % 8u] + 0.7);
+    const double s2 = ulp_variant(shape_bases[(i / 6u + 3u) % 8u], i + 1u, 5.5);
+    const double p = ulp_variant(p_bases[(i / 6u) % 4u], i, 0.05);
+    w->h = fnvd(w->h, cmb_random_std_gamma(s));            /* first gamma draw of the trial: the cache holds an earlier trial's key */
+    w->h = fnv(w->h, cmb_random_geometric(p));
+    w->h = fnvd(w->h, cmb_random_gamma(s, 2.0));
+    w->h = fnvd(w->h, cmb_random_chisquared(2.0 * s2));
+    w->h = fnvd(w->h, cmb_random_std_beta(s, s2));
+    w->h = fnvd(w->h, cmb_random_PERT(1.0, 1.0 + 1.9 * s / (s + 1.0), 3.0));
+    w->h = fnvd(w->h, cmb_random_std_gamma(s2));
+    w->h = fnvd(w->h, cmb_random_std_gamma(s));            /* leave the trial's own key in the cache */
+    w->h = fnv(w->h, cmb_random_geometric(p));
+}
+
 static void simulate(struct trial_hdr *t)
 {
     struct world w;
@@ -347,6 +383,7 @@ static void simulate(struct trial_hdr *t)
         if (t->idx_param & 1u) cmb_logger_flags_off(USERFLAG1);
     }
     cmb_event_queue_initialize(0.0);
+    if (kinds & K_ULP) ulp_block(&w, t);
 
     if ((kinds & K_TIE) && (kinds & K_POLLUTE) && !(t->idx_param & 1u)) {
         /* An unrelated trial whose only trace is in the allocator: it allocates process-sized blocks and frees some of
@@ -458,6 +495,7 @@ static void simulate(struct trial_hdr *t)
         }
         free(logbuf);
     }
+    if (kinds & K_ULP) ulp_block(&w, t);
     /* the outcome includes where the stream stands: the next raw 64 bits */
     w.h = fnv(w.h, cmb_random_sfc64());
     /* normally no cmb_random_terminate(): nothing obliges a trial to call it, and the next trial on this thread must be
